@@ -204,8 +204,31 @@ def proof_table(rep, pid, tier, seed, replay_in=None):
                      tag_filter=lambda t: t.startswith(prefix))
 
 
+def storage_trees(rep, pid, tier, seed, replay_in=None):
+    """Storage.tla bound to the real InMemoryStorage: every call sequence up to depth 2 over 2 heights x 2 views x 2 hashes x
+    2 senders plus long random sequences; after every call the whole log is read back through every getter (Trace_Storage)."""
+    from props import trees
+
+    def describe(path):
+        return " ".join("%s(%s h=%s v=%s %s by %s)->%s" % (e["op"], e.get("k"), e["h"], e["v"], e["x"], e["s"], e["res"]) for e in path[-8:])
+    r = vlib.tlc_must_pass("MC_Storage", "MC_Storage.cfg", timeout=900)
+    if r.violated:
+        raise vlib.Inconclusive("Storage.tla violates its own laws (%s): spec bug" % r.violated)
+    rep.add_tlc(r, "Storage.tla complete state graph (2 heights x 2 views x 2 hashes x 2 senders, at most 3 entries): one proposal per view, stores only add, clear is exact")
+    args = ["-seed", seed, "-depth", 2, "-rand", 300 if tier == "quick" else 6000, "-randlen", 40 if tier == "quick" else 80]
+    trees.run_tree(rep, pid, "storage", args, "Trace_Storage", "Trace_Storage.cfg", describe, replay_in=replay_in, timeout=3000, only_prefix=pid.lower() + "_")
+
+
 def replay(rep, payload, seed):
     pid = payload["property"]
+    if payload.get("kind") == "storage-path":
+        from props import trees
+        wd = vlib.scratch_dir("storager")
+        try:
+            storage_trees(rep, pid, "quick", seed, replay_in=trees.replay_path(payload, wd))
+        finally:
+            shutil.rmtree(wd, ignore_errors=True)
+        return
     if payload.get("kind") == "proofs-line":
         from props import tables
         wd = vlib.scratch_dir("proofr")
@@ -252,6 +275,8 @@ def simple_check(pid, tier, seed, extra=None):
         judge(rep, pid, tier, seed, args=la, what="random adversarial schedules against a lone real node (all other keys held by the adversary)")
     if pid in ("C07", "C08", "C09", "C11", "C12"):
         proof_table(rep, pid, tier, seed)
+    if pid in ("C08", "C10"):
+        storage_trees(rep, pid, tier, seed)
     if pid in ("C01", "C04", "C07", "C08", "C10"):
         from props import specreplay
         specreplay.judge(rep, pid, tier, seed)
